@@ -24,8 +24,18 @@ def check(chk, thorough=False):
     chk.run('C19.c', 'R-FLOW', 'the reply goes to the subject report-to, names its source and creation timestamp, is flagged admin-record only (requests no reports), has CRCs, and leaves through Agent.send_bundle', lambda ob: c19c(tree, ob), floor=6)
     chk.run('C19.d', 'R-NOPATH', 'a bundle whose transmission was taken over by a TX step (fragmentation) does not reach the "no sender" failure that the forwarder reports as deleted', lambda ob: c19d(tree, ob), floor=2)
     chk.run('C19.e', 'R-PAIR', 'each terminal outcome (delete, deliver, forward / forward failure) gets exactly one report opportunity', lambda ob: c19e(tree, ob), floor=3)
+    chk.run('C19.h', 'R-NOPATH', 'what is reported is what happened: a security failure withdraws deliver before delete is recorded (= C12.b); one routing decision per bundle, endpoint routing before static routing (= C10.c); a fragment that completes reassembly is withdrawn like the others (= C06.d)', lambda ob: _c19h(tree, ob), floor=15)
     chk.run('C19.f', 'R-TYPE', 'the reported reason is a reason code (= C12.f)', lambda ob: c12f(tree, ob), floor=2)
     chk.run('C19.g', 'R-WHO', 'the forwarding path does not rewrite report-to / flags / source / creation timestamp of the subject before its report is generated (= C11.a restricted to report-relevant fields)', lambda ob: c11a(tree, ob, only=('report_to', 'bundle_flags', 'source', 'create_ts')), floor=1)
+
+
+def _c19h(tree, ob):
+    from .c12 import c12b
+    from .c10 import c10c
+    from .c06 import c06d
+    c12b(tree, ob)
+    c10c(tree, ob)
+    c06d(tree, ob)
 
 
 def _dict_literal(fv, name, ob):
